@@ -116,6 +116,9 @@ func streamIsolation(o *Out, r *rand.Rand, n int, thorough bool) {
 		"bytes = import(\"bytes\")\nb = bytes.TrimSpace(\"  anko  \")\nb[0] = b[0] - 32\nprobe(toString(b))",
 		"bytes = import(\"bytes\")\nparts = bytes.Fields(\"ab cd\")\nparts[0][0] = 90\nparts[1][1] = 90\nprobe([toString(parts[0]), toString(parts[1])])\nprobe(\"ab cd\")",
 		"b = toByteSlice(\"hello\")\nb[0] = 72\nprobe([toString(b), \"hello\"])",
+		// the error a catch block binds for a stray break / continue / return belongs to the run: writing to it does not reach the next run
+		"seen = nil\ntry {\nbreak\n} catch e {\nseen = toString(e)\ntry {\ne.Message = \"x\"\n} catch e2 {\n}\n}\nprobe(seen)",
+		"seen = nil\nfunc f() {\ntry {\ncontinue\n} catch e {\nseen = toString(e)\ntry {\ne.Message = \"patched\"\ne.Pos.Line = 99\n} catch e2 {\n}\n}\n}\nf()\nprobe(seen)",
 		// a spread call with leading arguments, evaluated again and again (loop, later runs) with a different list each time
 		"func pair(a, b) { return [a, b] }\nr = []\nfor xs in [[1], [2], [3]] {\nr += [pair(\"k\", xs...)]\n}\nprobe(r)",
 		"func tri(a, b, c) { return [a, b, c] }\nr = []\nfor xs in [[1, 2], [3, 4]] {\nr += [tri(0, xs...)]\n}\nprobe(r)",
